@@ -261,6 +261,13 @@ def run_group_uncached(g, tier, root_wd, keep=False):
                samples=[], cmd="", group_def=g)
     try:
         gb = build_group(g, wd, tier)
+        # which real /repo functions are part of this group's obligations (function under contract + callees analysed inline)
+        try:
+            import covmap
+            res["analysed"] = covmap.analysed_in(g, wd, gb)
+        except Exception as e:
+            res["analysed"] = []
+            res["analysed_note"] = "call-graph analysis failed: %s" % str(e)[:200]
         cur, ilog = instrument(g, wd, gb)
         # vacuity (b): every contracted loop must have produced invariant obligations
         cmd = cbmc_cmd(g, cur)
